@@ -4,6 +4,7 @@ import (
 	"context"
 	"encoding/json"
 	"fmt"
+	"net/url"
 	"os"
 	"path/filepath"
 	"regexp"
@@ -347,6 +348,17 @@ func c20Build(c *fw.Ctx, p c20Param) *schedInst {
 			panic("c20 gcs setup")
 		}
 	}
+	sessURI := ""
+	for _, n := range p.Threads {
+		if strings.HasPrefix(n, "Sess") && sessURI == "" {
+			r := d.Do(gcs.ReqResumableStart("b", "s", gcs.ObjMeta{ContentType: "text/sess"}, nil))
+			u, err := url.Parse(r.Header.Get("Location"))
+			if r.Status != 200 || err != nil || u.Query().Get("upload_id") == "" {
+				panic("c20 gcs setup: no session")
+			}
+			sessURI = u.RequestURI()
+		}
+	}
 	panics := make([]string, len(p.Threads))
 	lastStatus := make([]int, len(p.Threads))
 	listed := make([][]string, len(p.Threads)) // object names a "List" thread was shown
@@ -367,7 +379,7 @@ func c20Build(c *fw.Ctx, p c20Param) *schedInst {
 			n = strings.TrimSuffix(n, "@ctx")
 		}
 		inst.Threads = append(inst.Threads, func() {
-			for _, r := range c20GcsReqs(n) {
+			for _, r := range c20GcsReqs(n, sessURI) {
 				resp := d.DoCtx(ctx, r)
 				if resp.Panic != "" {
 					panics[i] = r.String() + ": " + resp.Panic
@@ -433,6 +445,22 @@ func c20Build(c *fw.Ctx, p c20Param) *schedInst {
 				}
 			}
 		}
+		// a session whose chunks were sent concurrently (retries, status queries) still completes with exactly its bytes
+		if sessURI != "" {
+			r1 := d.Do(gcs.ReqResumableChunk(sessURI, []byte("abc"), "bytes 0-2/*", false, false))
+			switch {
+			case r1.Status >= 400 && r1.Panic == "": // completed by the mix: the session is gone (how that is said is C02's / the input catalogue's subject)
+			case r1.Status == 308:
+				if r2 := d.Do(gcs.ReqResumableChunk(sessURI, []byte("def"), "bytes 3-5/6", false, false)); r2.Status != 200 {
+					return "session", fmt.Sprintf("after the mix %v the session does not complete: re-sent first chunk 308, final chunk %d %.100q", p.Threads, r2.Status, r2.Body), "session"
+				}
+			default:
+				return "session", fmt.Sprintf("after the mix %v the re-sent first chunk of the session is answered %d %.100q %s", p.Threads, r1.Status, r1.Body, r1.Panic), "session"
+			}
+			if r := d.Do(gcs.ReqGetMedia("json", "b", "s")); r.Status != 200 || string(r.Body) != "abcdef" {
+				return "sessbytes", fmt.Sprintf("after the mix %v and the completion of the session the object holds %d %q, sent \"abcdef\"", p.Threads, r.Status, r.Body), "sessbytes"
+			}
+		}
 		// a valid upload with a gzip-compressed body is accepted whatever else is in flight, and served byte for byte
 		for i, n := range p.Threads {
 			if strings.HasPrefix(n, "GzUp") {
@@ -464,8 +492,16 @@ func c20GzPayload(tag string) []byte {
 	return []byte(strings.Repeat("gzip payload "+tag+" 0123456789 abcdefghij ", 40))
 }
 
-func c20GcsReqs(name string) []gcs.HTTPReq {
+func c20GcsReqs(name, sess string) []gcs.HTTPReq {
 	switch name {
+	// requests of ONE resumable session (b/s, "abcdef" in two chunks), as a client sends them when it retries a chunk
+	// whose answer is late while the first attempt is still being served, or asks for the status meanwhile
+	case "SessA", "SessB":
+		return []gcs.HTTPReq{gcs.ReqResumableChunk(sess, []byte("abc"), "bytes 0-2/*", false, false)}
+	case "SessQ":
+		return []gcs.HTTPReq{gcs.ReqResumableChunk(sess, nil, "bytes */*", false, false)}
+	case "SessF":
+		return []gcs.HTTPReq{gcs.ReqResumableChunk(sess, []byte("def"), "bytes 3-5/6", false, false)}
 	case "GzUp1", "GzUp2":
 		// a valid upload whose request body is gzip-compressed and arrives slowly
 		obj := "g" + strings.TrimPrefix(name, "GzUp")
@@ -700,6 +736,10 @@ func runC20Race(c *fw.Ctx, item *int64) {
 		// of them rejected before its body is consumed: the transport wrappers (decompress, drain) of two requests
 		// interleave
 		for _, tr := range [][]string{{"GzBad", "GzUp1"}, {"GzUp1", "GzUp2"}, {"GzPatch", "GzUp1"}, {"GzBad", "GzPatch"}, {"GzBad", "GzBad"}} {
+			scen = append(scen, c20Param{Side: "gcs", Store: store, Threads: tr})
+		}
+		// two requests of the same resumable session in flight at once
+		for _, tr := range [][]string{{"SessA", "SessB"}, {"SessA", "SessQ"}, {"SessA", "SessF"}, {"SessF", "SessQ"}} {
 			scen = append(scen, c20Param{Side: "gcs", Store: store, Threads: tr})
 		}
 		// a client that goes away while its request waits for (or holds) object locks
